@@ -151,6 +151,8 @@ pub struct UpdateCase {
     pub tag: String,
     /// answers are representable in the format: the re-run / fixed-point oracle is judged
     pub representable: bool,
+    /// final contents of the uninterrupted run of the same case (crash cases only)
+    pub expect_final: Option<Vec<String>>,
 }
 
 impl UpdateCase {
@@ -353,22 +355,49 @@ impl UpdateCase {
             // ---------------- oracles on the implementation alone
             let mut oracle = None;
             if status == "panic" && self.crash_at.is_none() {
-                oracle = Some("the updater panicked".to_string());
+                oracle = Some("C08|the updater panicked".to_string());
             }
-            if oracle.is_none() && status == "ok" {
-                if !left.is_empty() {
-                    oracle = Some(format!("debris left after completion: {:?}", left));
+            // atomicity: at every database request (and after a crash) every original file holds
+            // its complete old or its complete new content
+            let finals: Option<&Vec<String>> =
+                if status == "ok" { Some(&after) } else { self.expect_final.as_ref() };
+            if let Some(fin) = finals {
+                let ok_content = |i: usize, c: &String| *c == self.tree.files[i].1 || *c == fin[i];
+                for (k, s) in snaps.iter().enumerate() {
+                    for (i, c) in s.iter().enumerate() {
+                        if oracle.is_none() && !ok_content(i, c) {
+                            oracle = Some(format!(
+                                "C08|at database request {} file {} holds neither its old nor its new content",
+                                k, self.tree.files[i].0
+                            ));
+                        }
+                    }
                 }
-                for ((p, old), c) in self.tree.files.iter().zip(after.iter()) {
-                    if c != old && !c.is_empty() && (!c.ends_with('\n') || c.ends_with("\n\n")) {
-                        oracle = Some(format!("{} does not end with exactly one newline", p));
+                if status == "panic" {
+                    for (i, c) in after.iter().enumerate() {
+                        if oracle.is_none() && !ok_content(i, c) {
+                            oracle = Some(format!(
+                                "C08|after the interruption file {} holds neither its old nor its new content",
+                                self.tree.files[i].0
+                            ));
+                        }
                     }
                 }
             }
-            if oracle.is_none() && status == "ok" && self.crash_at.is_none() {
+            if oracle.is_none() && status == "ok" {
+                if !left.is_empty() {
+                    oracle = Some(format!("C08|debris left after completion: {:?}", left));
+                }
+                for ((p, old), c) in self.tree.files.iter().zip(after.iter()) {
+                    if c != old && !c.is_empty() && (!c.ends_with('\n') || c.ends_with("\n\n")) {
+                        oracle = Some(format!("C08|{} does not end with exactly one newline", p));
+                    }
+                }
+            }
+            if oracle.is_none() && status == "ok" && self.crash_at.is_none() && self.representable {
                 // C07: nothing but expectations changes
                 if let Some(m) = self.preserved(&after) {
-                    oracle = Some(m);
+                    oracle = Some(format!("C07|{}", m));
                 }
             }
             if oracle.is_none() && status == "ok" && self.crash_at.is_none() && self.representable {
@@ -384,21 +413,21 @@ impl UpdateCase {
                     Ok(Ok(())) => {}
                     Ok(Err(e)) => {
                         oracle = Some(format!(
-                            "the updated file does not pass against the same database: {} at {}",
+                            "C06|the updated file does not pass against the same database: {} at {}",
                             terr_kind(&e.kind()),
                             e.location()
                         ))
                     }
-                    Err(_) => oracle = Some("running the updated file panicked".into()),
+                    Err(_) => oracle = Some("C06|running the updated file panicked".into()),
                 }
                 if oracle.is_none() {
                     let shared3 = new_shared(self.db.clone());
                     let r3 = self.do_update(&shared3);
                     let again = self.read_files();
                     if !matches!(r3, Ok(Ok(()))) {
-                        oracle = Some("second update failed".into());
+                        oracle = Some("C06|second update failed".into());
                     } else if again != after {
-                        oracle = Some("a second update changed the file again (not a fixed point)".into());
+                        oracle = Some("C06|a second update changed the file again (not a fixed point)".into());
                     }
                 }
             }
